@@ -47,6 +47,16 @@ AUTHORS = ["Ann", "K", "日本語の名前がとても長い人物です", "Kang
 GREP_PATHS = ["src/a.rs", "Makefile", "a b/c.txt", "x-1.y", "日本/f.py", "README"]
 
 
+SWEEP_DIFFS = [
+    ("paired-ascii", "diff --git a/foo.txt b/foo.txt\nindex 1111111..2222222 100644\n--- a/foo.txt\n+++ b/foo.txt\n@@ -1,3 +1,3 @@\n"
+                     " context line\n-old text here\n+new text here\n tail\n"),
+    ("paired-rs-wide", "diff --git a/src/m.rs b/src/m.rs\n--- a/src/m.rs\n+++ b/src/m.rs\n@@ -98,4 +98,5 @@ fn main() {\n"
+                       "     let x = \"日本語\"; // c\n-    let y = f(a, b);\n+    let y = f(a, b, c);\n+\tlet z = 1;\n }\n"),
+    ("unpaired-long", "diff --git a/a.py b/a.py\n--- a/a.py\n+++ b/a.py\n@@ -1,2 +1,3 @@ class X:\n-" + "x = 1; " * 12 + "\n+y\n+"
+                      + "é" * 30 + "\n ctx\n"),
+]
+
+
 def gen_blame(rng):
     out = []
     for i in range(rng.randint(1, 12)):
@@ -171,6 +181,14 @@ def run(ctx, rep):
     for _ in range(ctx.n(700, 40000)):
         lines, data = gen_input(rng)
         jobs.append((gen_args(rng), data))
+
+    # (2b) geometry sweep: small fixed diffs x every width 1..44 x wrap limits, side-by-side (panel text widths 0, 1, 2, …
+    # are where wrapping, truncation and padding have their boundary cases; random widths hit each of them rarely)
+    for name, diff in SWEEP_DIFFS:
+        for w in range(1, ctx.n(45, 90)):
+            for wrap in (["--wrap-max-lines", "unlimited"], ["--wrap-max-lines", "2"], ["--wrap-max-lines", "0"]):
+                for extra in ([], ["--line-numbers-left-format", "", "--line-numbers-right-format", ""]):
+                    jobs.append((["--no-gitconfig", "--side-by-side", "--width", str(w)] + wrap + extra, diff.encode()))
 
     def one(j):
         args, data = j
